@@ -370,3 +370,9 @@ PROPS["C17"]["rule"] += (" Second runner C17TX (M-pure, hook VerifStartTx): unor
 PROPS["C13"]["modules"] = PROPS["C13"]["modules"] + ["SyncCheck"]
 PROPS["C13"]["runners"] = PROPS["C13"]["runners"] + [{"name": "SYNC13", "synctest": True}]
 PROPS["C13"]["rule"] += (" Second runner SYNC13 (gated, real time): the broker acknowledges the identifier next in line (PUBACK resp. PUBREC) while the PUBLISH carrying it is still being written, then the write fails: no call may panic or hang (finding F27).")
+
+# C14/C12: Close and Disconnect against a transport whose Close fails and every outcome of the DISCONNECT write
+for _p in ("C14", "C12"):
+    PROPS[_p]["modules"] = PROPS[_p]["modules"] + ["TermCheck"]
+    PROPS[_p]["runners"] = PROPS[_p]["runners"] + [{"name": _p + "DISC", "synctest": True}]
+    PROPS[_p]["rule"] += (" Runner C14DISC/C12DISC (M-seq): Close, Disconnect with an open and with a closed quit channel, from the states never-connected / online / closed, against nine scripts of the DISCONNECT write (partial, timeout, hard, closed, fully accepted yet failed) and a transport whose Close fails; compared with TermCheck.term_model (a set of allowed outcomes where the select is a free choice) and judged by term_ok (C14): Disconnect returns nil, ErrClosed, ErrDown, ErrCanceled or else ErrSubmit, the first three with no byte sent, nil with the whole packet sent; Close returns nil or the transport's error; resp. term_ok_c12 (C12): the connection was closed, Ping and ReadSlices afterwards get ErrClosed, nothing panicked or hung.")
